@@ -14,6 +14,7 @@ THEOREMS = [
     "Cspuz.C15.C15_rooms",
     "Cspuz.C15.C15_valued_rooms",
     "Cspuz.C15.C15_puzzles_wf",
+    "Cspuz.C15.C15_wf_ctorOk",
 ]
 
 
@@ -161,6 +162,28 @@ def correspond(ctx):
                  ("de", sx, s, idx, h, w) if ro.startswith("(ok") else None)
         if ro != mo:
             ctx.disagree("deserialize-model-vs-code", term=sx, text=s, idx=idx, h=h, w=w, real=ro, model=mo)
+    # --- the constructors' own parameter checks, at and beyond their limits (a constructor that accepts more builds
+    # combinators that cannot round-trip; one that accepts less rejects codecs the theorems cover)
+    import cspuz.problem_serializer as ps
+    ctor_cases = []
+    for mi in range(0, 37):
+        for ms in (0, 1, 2, 3, 5, 8, 11, 17, 35, 36):
+            ctor_cases.append(("(intspaces (i -1) %d %d)" % (mi, ms), lambda mi=mi, ms=ms: ps.IntSpaces(-1, mi, ms)))
+    for b in range(0, 38):
+        for d in range(0, 7):
+            ctor_cases.append(("(multidigit %d %d)" % (b, d), lambda b=b, d=d: ps.MultiDigit(b, d)))
+    for nb in range(0, 4):
+        for na in range(0, 4):
+            ctor_cases.append(("(dict (%s) (%s))" % (" ".join("(i %d)" % i for i in range(nb)), " ".join("(%d)" % (97 + i) for i in range(na))),
+                               lambda nb=nb, na=na: ps.Dict(list(range(nb)), [chr(97 + i) for i in range(na)])))
+    outs = drv.run(["(ctor %s)" % t for t, _ in ctor_cases])
+    for (t, mk), mo in zip(ctor_cases, outs):
+        o = sc.run_guarded(mk, 5)
+        real = "(ok T)" if o[0] == "ret" else ("(ok F)" if o == ("err", "ValueError") else "(err %s)" % (o[1] if o[0] == "err" else "diverge"))
+        ctx.count("ctor:" + real)
+        ctx.case({"op": "constructor", "term": t, "real": real}, ("ctor", t) if real == "(ok T)" else None)
+        if real != mo:
+            ctx.disagree("constructor-model-vs-code", term=t, real=real, model=mo)
     # --- regenerated puzzle table agrees with the live objects (tie of Gen/PuzzleCombinators.lean)
     sc.check_puzzle_table(ctx, drv, sc.puzzle_objects())
 
@@ -281,6 +304,24 @@ def search(ctx, why):
     t = ps.Tupl(ps.HexInt(), ps.FixStr("/"), ps.Seq(ps.DecInt(), 1))
     for a in alpha:
         _check_value(found, "tupl:roundtrip", t, "Tupl(HexInt(),FixStr('/'),Seq(DecInt(),1))", ([a], [], [[a]]), ([a], [], [[a]]), 1, 1)
+    # 3a. combinators whose parameters are beyond what the text format can carry: if the constructor builds them,
+    # the largest value they accept must still round-trip
+    for mi in range(0, 37):
+        for ms in (0, 1, 2, 3, 5, 8, 11, 17, 35):
+            if (mi + 1) * (ms + 1) > 36:
+                o = sc.run_guarded(lambda: ps.IntSpaces(-1, mi, ms), 5)
+                if o[0] == "ret":
+                    v = [mi] + [-1] * ms
+                    _check_value(found, "intspaces:constructor-accepts-parameters-beyond-base36", ps.Seq(o[1], ms + 1),
+                                 "Seq(IntSpaces(-1,%d,%d),%d)" % (mi, ms, ms + 1), v, v, 1, 1)
+    for b in range(1, 38):
+        for d in range(1, 7):
+            if b ** d > 36:
+                o = sc.run_guarded(lambda: ps.MultiDigit(b, d), 5)
+                if o[0] == "ret":
+                    v = [b - 1] * d
+                    _check_value(found, "multidigit:constructor-accepts-parameters-beyond-base36", ps.Seq(o[1], d),
+                                 "Seq(MultiDigit(%d,%d),%d)" % (b, d, d), v, v, 1, 1)
     # 3b. the custom yajilin clue combinator (every clue kind its decoder can produce, numbers across 15/16)
     from cspuz.puzzle.yajilin import YajilinClue
     for clue in ("^0", "v9", "<15", ">16", "^17", "v255", "??"):
